@@ -7,6 +7,7 @@ pub mod macros;
 
 pub mod lut_dump;
 pub mod c03;
+pub mod c04;
 pub mod c05;
 pub mod c06;
 pub mod c11;
@@ -15,6 +16,7 @@ pub mod c12;
 pub fn registry() -> Vec<&'static macros::Entry> {
     let mut v = Vec::new();
     v.extend(c03::registry());
+    v.extend(c04::registry());
     v.extend(c05::registry());
     v.extend(c06::registry());
     v.extend(c11::registry());
